@@ -412,7 +412,7 @@ class MelodyModel:
             if not capellambse.helpers.is_uuid_string(uuid):
                 raise ValueError(f"Malformed or missing UUID for {target!r}")
 
-        for elem in self._loader.xpath(
+        candidates = self._loader.xpath(
             f"//*[@*[contains(., '#{uuid}')]"
             f" | */@*[name() != 'href' and contains(., '#{uuid}')]]",
             roots=[
@@ -420,7 +420,19 @@ class MelodyModel:
                 for i in self._loader.trees.values()
                 if i.fragment_type != loader.FragmentType.VISUAL
             ],
-        ):
+        )
+        # The root of a fragment is, in the complete tree, a child of the
+        # element that holds its placeholder.
+        for elem in list(candidates):
+            if elem.getparent() is None:
+                owner = next(iter(self._loader.iterancestors(elem)), None)
+                if owner is not None:
+                    candidates.append(owner)
+        seen: set[int] = set()
+        for elem in candidates:
+            if id(elem) in seen:
+                continue
+            seen.add(id(elem))
             obj = _obj.ModelElement.from_model(self, elem)
             for attr in _reference_attributes(type(obj)):
                 if attr.startswith("_"):
